@@ -1006,6 +1006,169 @@ pub fn gen_record_at(rng: &mut Rng, h: &HeaderDesc, o: &RecOpts, place: Option<(
     RecDesc { chrom, pos, ids, reference, alts, qual, filters, info, format, samples }
 }
 
+/// A deliberately *rich* record (for stale-state tests of reused buffers): three IDs, 3..5 plain
+/// ALTs, QUAL, every declared filter, every declared INFO key with a value (Flag, scalars, arrays),
+/// every FORMAT key, tetraploid genotypes, no missing value, long strings now and then.
+pub fn gen_rich_record(rng: &mut Rng, h: &HeaderDesc, o: &RecOpts) -> RecDesc {
+    let base = gen_record(rng, h, &RecOpts { rare: u64::MAX, invalid_ints: false, ..o.clone() });
+    let ff = h.fileformat;
+    let o = RecOpts { rare: u64::MAX, invalid_ints: false, ..o.clone() };
+    let n_alt = rng.urange(3, 5);
+    let mut alts: Vec<String> = Vec::new();
+    while alts.len() < n_alt {
+        let n = rng.urange(1, 6);
+        let a = bases(rng, n, false);
+        if a != base.reference && !alts.contains(&a) {
+            alts.push(a);
+        }
+    }
+    let ids: Vec<String> = (0..3).map(|i| format!("rs{}{i}", rng.below(1_000_000))).collect();
+    let mut filters: Vec<String> = h.filters.iter().map(|d| d.id.clone()).filter(|f| f != "PASS").collect();
+    if filters.is_empty() {
+        filters.push("PASS".into());
+    }
+    let mut info: Vec<(String, Option<Val>)> = Vec::new();
+    for d in h.infos.iter().take(14) {
+        if d.id == "END" || d.id == "SVLEN" {
+            continue;
+        }
+        let mut v = gen_value(rng, &o, d.num, d.ty, n_alt, 4, false);
+        fill_missing(rng, &o, &mut v);
+        if v.is_some() {
+            info.push((d.id.clone(), v));
+        }
+    }
+    let mut format: Vec<String> = Vec::new();
+    let mut samples: Vec<Vec<Option<Val>>> = Vec::new();
+    if !h.samples.is_empty() {
+        if h.format("GT").is_some() {
+            format.push("GT".into());
+        }
+        for d in h.formats.iter().filter(|d| d.id != "GT").take(10) {
+            if d.id == "LEN" && ff < (4, 5) {
+                continue;
+            }
+            format.push(d.id.clone());
+        }
+        if format.is_empty() {
+            format.push(if o.model == Model::Full { "undeclaredFmt".into() } else { "GT".into() });
+        }
+        for _ in 0..h.samples.len() {
+            let mut row = Vec::new();
+            for k in &format {
+                if k == "GT" {
+                    let g: Vec<GtAllele> = (0..4).map(|i| GtAllele { allele: Some(rng.below(n_alt as u64 + 1) as u32), phased: i > 0 && rng.bool() }).collect();
+                    let mut g = g;
+                    g[0].phased = implied_first_phasing(&g);
+                    row.push(Some(Val::Gt(g)));
+                    continue;
+                }
+                let (num, ty) = h.format(k).map(|d| (d.num, d.ty)).unwrap_or((Num::Count(1), Ty::String));
+                let mut v = if k == "LEN" { Some(Val::Int(rng.range(1, 50) as i32)) } else { gen_value(rng, &o, num, ty, n_alt, 4, false) };
+                fill_missing(rng, &o, &mut v);
+                if v.is_none() {
+                    v = Some(match ty {
+                        Ty::Integer => Val::Ints(vec![Some(1), Some(2), Some(3)]),
+                        Ty::Float => Val::Floats(vec![Some(1f32.to_bits()), Some(2f32.to_bits())]),
+                        Ty::Character => Val::Chars(vec![Some('a'), Some('b')]),
+                        _ => Val::Strs(vec![Some("long".into()), Some("value".into())]),
+                    });
+                    if num.is_scalar() {
+                        v = gen_value(rng, &o, num, ty, n_alt, 4, false);
+                    }
+                }
+                row.push(v);
+            }
+            samples.push(row);
+        }
+    }
+    RecDesc { chrom: base.chrom, pos: base.pos.max(1), ids, reference: base.reference, alts, qual: Some((rng.range(1, 9999) as f32 / 10.0).to_bits()), filters, info, format, samples }
+}
+
+fn fill_missing(rng: &mut Rng, o: &RecOpts, v: &mut Option<Val>) {
+    match v {
+        Some(Val::Ints(a)) => a.iter_mut().for_each(|e| {
+            if e.is_none() {
+                *e = Some(gen_int(rng, o));
+            }
+        }),
+        Some(Val::Floats(a)) => a.iter_mut().for_each(|e| {
+            if e.is_none() {
+                *e = Some(gen_float(rng, o));
+            }
+        }),
+        Some(Val::Chars(a)) => a.iter_mut().for_each(|e| {
+            if e.is_none() {
+                *e = Some(gen_char(rng, o, false));
+            }
+        }),
+        Some(Val::Strs(a)) => a.iter_mut().for_each(|e| {
+            if e.is_none() {
+                *e = Some(gen_string(rng, o));
+            }
+        }),
+        _ => {}
+    }
+}
+
+/// A *minimal* record at the place of `at` (CHROM/POS kept, one-base REF). `kind % 4`:
+/// 0 = every optional column `.`, every sample column `.` (one FORMAT key);
+/// 1 = FILTER PASS, one short INFO string or flag, samples carry the first key only (haploid GT);
+/// 2 = as 0 but the samples keep two keys with the trailing value dropped;
+/// 3 = as 0 with no FORMAT keys at all (`format` and `samples` empty) — valid text only when the
+///     header has no samples; BCF stores it as n_fmt = 0.
+pub fn minimal_record(h: &HeaderDesc, at: &RecDesc, kind: u64) -> RecDesc {
+    let mut r = RecDesc { chrom: at.chrom.clone(), pos: at.pos.max(1), ids: vec![], reference: "N".into(), alts: vec![], qual: None, filters: vec![], info: vec![], format: vec![], samples: vec![] };
+    let ns = h.samples.len();
+    let first = h.formats.first().map(|d| d.id.clone()).unwrap_or_else(|| "GT".into());
+    let value_of = |k: &str| -> Option<Val> {
+        if k == "GT" {
+            return Some(Val::Gt(vec![GtAllele { allele: Some(0), phased: true }]));
+        }
+        let d = h.format(k)?;
+        Some(match (d.num.is_scalar(), d.ty) {
+            (true, Ty::Integer) => Val::Int(1),
+            (true, Ty::Float) => Val::Float(0),
+            (true, Ty::Character) => Val::Char('x'),
+            (true, _) => Val::Str("s".into()),
+            (false, Ty::Integer) => Val::Ints(vec![Some(1)]),
+            (false, Ty::Float) => Val::Floats(vec![Some(0)]),
+            (false, Ty::Character) => Val::Chars(vec![Some('x')]),
+            (false, _) => Val::Strs(vec![Some("s".into())]),
+        })
+    };
+    match kind % 4 {
+        1 => {
+            r.filters = vec!["PASS".into()];
+            if let Some(d) = h.infos.iter().find(|d| d.ty == Ty::Flag || (d.ty == Ty::String && d.num.is_scalar())) {
+                r.info.push((d.id.clone(), Some(if d.ty == Ty::Flag { Val::Flag } else { Val::Str("s".into()) })));
+            }
+            if ns > 0 {
+                r.format = vec![first.clone()];
+                r.samples = (0..ns).map(|_| vec![value_of(&first)]).collect();
+            }
+        }
+        2 => {
+            if ns > 0 {
+                r.format = h.formats.iter().take(2).map(|d| d.id.clone()).collect();
+                if r.format.is_empty() {
+                    r.format.push(first.clone());
+                }
+                let k0 = r.format[0].clone();
+                r.samples = (0..ns).map(|_| vec![value_of(&k0)]).collect();
+            }
+        }
+        3 => {}
+        _ => {
+            if ns > 0 {
+                r.format = vec![first];
+                r.samples = (0..ns).map(|_| vec![None]).collect();
+            }
+        }
+    }
+    r
+}
+
 /// A coordinate-sorted set over the contigs of `h` (in header order) with unique IDs `v1..vN`:
 /// spans straddling the 16 kb / 128 kb / 1 Mb / 8 Mb / 64 Mb bin edges, long-before-short patterns
 /// inside one window, several records at one position, empty contigs. Needs declared contigs; their
